@@ -8,8 +8,8 @@ import UgoVerif.VM.Reset
   instruction n is fetched (the loop ends before instruction n+1).
   Answer: the outcome line of every run, then the outcome of the last run on a new VM.
 -/
-namespace Driver
-open UgoVerif UgoVerif.Go UgoVerif.VM
+namespace Driver.VMHist
+open Driver UgoVerif UgoVerif.Go UgoVerif.VM
 
 structure HRun where
   recover : Bool
@@ -127,4 +127,4 @@ def handleVMHist (args : List String) : String :=
     | _ => "bad-op"
   | _ => "bad-op"
 
-end Driver
+end Driver.VMHist
